@@ -24,10 +24,15 @@ class PtypeHooks(Hooks):
         self.doc = doc
         self.pre = None
         self.last_transition = {}
+        self.given_ptype = {}       # plane id -> the plane type its creator asked for (name), when it asked for one
 
     def before(self, it, i, ev):
         fn = ev['fn']
         self.pre = None
+        self.pre_assign = None
+        if fn == 'setattr' and ev.get('t', {}).get('refused_assignment'):
+            w_ = it.resolve(ev['a'][0])
+            self.pre_assign = (w_, it.dig(w_))
         if fn in MUL:
             pi, wi = MUL[fn]
             p = it.resolve(ev['a'][pi])
@@ -38,10 +43,23 @@ class PtypeHooks(Hooks):
             self.pre = ('prop', None, w, None, it.dig(w), str(w.ptype))
 
     def after(self, it, i, ev, out):
+        if getattr(self, 'pre_assign', None) is not None:
+            w_, d_ = self.pre_assign
+            it.probe('check:refusal_atomic')
+            it.probe('refused_type_assignment')
+            it.fault('refuse')
+            if out.ok:
+                it.violate('C08.table', {'what': 'illegal-type-assigned', 'got': str(w_.ptype)}, 'a wavefront accepted the type %s' % w_.ptype, i)
+            elif it.dig(w_) != d_:
+                it.violate('C08.refusal_atomic', {'fn': 'setattr', 'operand': 'wavefront', 'exc': type(out.exc).__name__},
+                           'a refused type assignment changed the wavefront (now %s)' % w_.ptype, i)
+        if out.ok and ev.get('id') and 'ptype' in ev.get('k', {}) and ev['fn'] != 'Wavefront':
+            g = ev['k']['ptype']
+            self.given_ptype[ev['id']] = g['$ptype'] if isinstance(g, dict) else (None if g is None else str(g))
         if ev['fn'] == 'Wavefront' and out.ok:
             # the start of every program: a new wavefront has the type it was given, none when it was given none
             given = ev.get('k', {}).get('ptype')
-            want = 'none' if given is None else str(given)
+            want = 'none' if given is None else (given['$ptype'] if isinstance(given, dict) else str(given))
             it.probe('check:constructor')
             if sorted(ev.get('k', {})) not in ([], ['ptype']):
                 it.probe('wavefront_constructor_arguments')
@@ -75,10 +93,16 @@ class PtypeHooks(Hooks):
             cls = type(p).__name__
             doc_pt = self.doc.classes.get(cls) if cls != 'Plane' else None
             pid = ev['a'][MUL[fn][0]][1:]
+            act_pt = str(p.ptype)
             if 'ptype' in it.meta.get(pid, {}).get('kw', []):
                 doc_pt = None       # the caller chose the plane type explicitly: the table row of that type applies
                 it.probe('explicit_ptype_kw')
-            act_pt = str(p.ptype)
+                given = self.given_ptype.get(pid)
+                if given is not None and given in PTYPES:
+                    if act_pt != given:
+                        it.violate('C08.table', {'what': 'plane-type-not-the-one-given', 'class': cls, 'expected': given, 'got': act_pt},
+                                   '%s(ptype=%s) reports type %s' % (cls, given, act_pt), i)
+                    act_pt = given
             if doc_pt is not None:
                 it.probe('check:class_applies')
                 if act_pt != doc_pt:
@@ -170,7 +194,7 @@ class PtypeScenario(Scenario):
         self.must_hit = cells + props + ['refuse_after_transition', 'class:Pupilxnone', 'class:Pupilxpupil',
                                          'class:Imagexnone', 'class:Imageximage', 'class:Tiltxpupil', 'class:Tiltximage',
                                          'class:DispersiveTiltxpupil', 'class:Rotatexpupil', 'class:Flipxpupil', 'explicit_ptype_kw',
-                                         'wavefront_constructor_arguments', 'refuse_after_attribute_update', 'refused_on_a_dark_wavefront', 'sampled_plane_right_after_propagation']
+                                         'wavefront_constructor_arguments', 'refuse_after_attribute_update', 'refused_on_a_dark_wavefront', 'sampled_plane_right_after_propagation', 'refused_type_assignment']
         self.probe_names = self.must_hit + ['coldwarm_audit']
 
     @property
@@ -232,6 +256,13 @@ class PtypeScenario(Scenario):
         add('Plane', 'GPA', k={'amplitude': '@a0', 'pixelscale': ph['dx'], 'ptype': 'pupil'})
         add('Tilt', 'TLT', k={'x': 2e-6 / ph['f'], 'y': -3e-6 / ph['f']})
         add('Tilt', 'TLTP', k={'x': 1e-6 / ph['f'], 'y': 1e-6 / ph['f'], 'ptype': 'pupil'})
+        # the requested type given as a plane-type OBJECT, including lentil.none itself
+        add('Tilt', 'TLTN', k={'x': 1e-6 / ph['f'], 'y': 0.0, 'ptype': {'$ptype': 'none'}})
+        add('DispersiveTilt', 'DSPN', k={'trace': [0.5, 0.0], 'dispersion': [1e-3, ph['wl'] - 2e-8], 'ptype': {'$ptype': 'none'}})
+        add('Tilt', 'TLTI', k={'x': 0.0, 'y': 1e-6 / ph['f'], 'ptype': {'$ptype': 'image'}})
+        add('Plane', 'PLNT', k={'ptype': {'$ptype': 'transform'}})
+        # a sampled pupil that was never given a pixel scale (nor a diameter)
+        add('Pupil', 'PUPNOPX', k={'amplitude': '@a0', 'focal_length': ph['f']})
         add('DispersiveTilt', 'DSPI', k={'trace': [0.5, 0.0], 'dispersion': [1e-3, ph['wl'] - 2e-8], 'ptype': 'image'})
         add('DispersiveTilt', 'DSP', k={'trace': [0.5, 0.0], 'dispersion': [1e-3, ph['wl'] - 2e-8]})
         add('Grism', 'GRS', k={'trace': [0.25, 0.0], 'dispersion': [1e-3, ph['wl'] - 1e-8]})
@@ -276,6 +307,11 @@ class PtypeScenario(Scenario):
         P['GPA'] = {'pt': 'pupil', 'px': dx, 'arr': True, 'shape': S0, 'fl': None, 'tilt': False}
         P['TLT'] = {'pt': cls['Tilt'], 'px': None, 'arr': False, 'shape': (), 'fl': None, 'tilt': True}
         P['TLTP'] = {'pt': 'pupil', 'px': None, 'arr': False, 'shape': (), 'fl': None, 'tilt': True}
+        P['TLTN'] = {'pt': 'none', 'px': None, 'arr': False, 'shape': (), 'fl': None, 'tilt': True}
+        P['DSPN'] = {'pt': 'none', 'px': None, 'arr': False, 'shape': (), 'fl': None, 'tilt': True}
+        P['TLTI'] = {'pt': 'image', 'px': None, 'arr': False, 'shape': (), 'fl': None, 'tilt': True}
+        P['PLNT'] = {'pt': 'transform', 'px': None, 'arr': False, 'shape': (), 'fl': None, 'tilt': False}
+        P['PUPNOPX'] = {'pt': cls['Pupil'], 'px': None, 'arr': True, 'shape': S0, 'fl': ph['f'], 'tilt': False, 'pupil': True}
         P['DSPI'] = {'pt': 'image', 'px': None, 'arr': False, 'shape': (), 'fl': None, 'tilt': True}
         P['DSP'] = {'pt': cls['DispersiveTilt'], 'px': None, 'arr': False, 'shape': (), 'fl': None, 'tilt': True}
         P['GRS'] = {'pt': 'tilt', 'px': None, 'arr': False, 'shape': (), 'fl': None, 'tilt': True}
@@ -423,6 +459,11 @@ class PtypeScenario(Scenario):
                         counter += 1
                         prog.append(self.mul_event(rng, c, rng.choice(bad_w), pid_, 'c%d_%d' % (c, counter), {'reassigned_plane': True}))
                     continue
+                if rng.random() < 0.05:
+                    # a type a wavefront may not carry is assigned (refused): the wavefront is what it was, and goes on being used
+                    prog.append({'c': c, 'fn': 'setattr', 'a': ['@' + w['id'], 'ptype', rng.choice(['tilt', 'transform', {'$ptype': 'tilt'}, 'bogus'])],
+                                 'id': new_id, 't': {'refused_assignment': True}})
+                    continue
                 if rng.random() < 0.08:
                     cp = dict(w, id=new_id)
                     prog.append({'c': c, 'fn': 'deepcopy', 'a': ['@' + w['id']], 'id': new_id, 't': {'copy': True}})
@@ -551,6 +592,8 @@ class PtypeScenario(Scenario):
         for n_, pid_ in enumerate(('g_image', 'g_none', 'IMG', 'PUP', 'TLT', 'g_transform', 'PLN')):
             events.append({'c': 0, 'fn': ['Plane.multiply', 'w*p', 'p*w', 'w*=p'][n_ % 4], 'id': 'dk_%s' % pid_,
                            'a': (['@dk2', '@' + pid_] if n_ % 4 in (1, 3) else ['@' + pid_, '@dk2']), 't': {'dark': True}})
+        events.append({'c': 0, 'fn': 'setattr', 'a': ['@pu', 'ptype', 'tilt'], 'id': 'pu_badtype', 't': {'refused_assignment': True}})
+        events.append({'c': 0, 'fn': 'Plane.multiply', 'a': ['@TLT', '@pu'], 'id': 'pu_after_badtype'})
         events.append({'c': 0, 'fn': 'Pupil', 'id': 'pz', 'k': {'amplitude': '@a0z', 'pixelscale': world['phys']['dx']}})
         events.append({'c': 0, 'fn': 'setattr', 'a': ['@pz', 'amplitude', '@a0'], 'id': 'pzs'})
         events.append({'c': 0, 'fn': 'Plane.multiply', 'a': ['@pz', '@w_image'], 'id': 'pz_bad', 't': {'reassigned_plane': True}})
